@@ -60,7 +60,7 @@ CHECKS.update({
    technique='Coq proof over all line lists (case analysis of assembleLine + finite table sweep lifted by lemma) + per-run two-stage differential correspondence'),
  'C10': dict(
    text=('Theorems about the literal model of ParseLoadFile (model/Load.v), for every input text: the reader always answers (error or warrior); an accepted warrior has every field below the core size, an entry '
-         'point inside the code, and under \'88 only legal \'88 instructions with the implied modifier; the number of instructions returned equals the number of instruction lines of the text (no line is silently dropped). '
+         'point inside the code, and under \'88 only legal \'88 instructions with the implied modifier; the number of instructions returned equals the number of instruction-bearing lines of the text, where only a line of white space (in front of a remark) counts as blank - a line of commas does not (D32) - so no line is silently dropped. '
          'Every run feeds generated load files (canonical, mutated, truncated, wrong rule set, bare ORG, junk) to gmars and the extracted model and checks the extracted acceptance monitor.'),
    design_ref='DESIGN.md 5 C10', note=NOTE_STD,
    technique='Coq proof by induction over the lines of the text + per-run differential correspondence and extracted acceptance monitor'),
@@ -101,7 +101,7 @@ CHECKS.update({
    text=('Theorems about the literal model of expr.go (model/ExprEval.v: combineSigns, flipDoubleNegatives, evaluation, 32-bit range check): for EVERY expression tree over non-negative literals, + - * / %, parentheses and '
          'any run of stacked unary signs, written out token by token, evaluateExpression returns the exact integer value (usual precedence, left associativity, / and % truncating toward zero) when it fits 32 bits and an error when a '
          'division by zero occurs or it does not fit; the two token rewritings turn a printed tree into a printed tree of the same value that never contains "++" or "--"; the value is then reduced to v mod M; the predefined names '
-         'evaluate to the configuration values; an ;assert passes exactly when its expression is non-zero; and for EVERY token list that the reference evaluator accepts (so also for the lists textual EQU substitution produces, which are the printed form of no tree in the program) evaluateExpression returns the reference value (C07_all_accepted_token_lists). go/types.Eval itself is modelled (by the precedence-climbing evaluator proved correct against the denotation), not verified, '
+         'evaluate to the configuration values; an ;assert passes exactly when its expression is non-zero, and on whole programs (labelled instructions, EQU definitions to any depth, ORG, ;assert lines anywhere) the compiler refuses the program when a condition has the reference value 0 (C07_zero_condition_refused) and accepts it with the denoted code when every condition is non-zero (C07_nonzero_conditions_accepted); and for EVERY token list that the reference evaluator accepts (so also for the lists textual EQU substitution produces, which are the printed form of no tree in the program) evaluateExpression returns the reference value (C07_all_accepted_token_lists). go/types.Eval itself is modelled (by the precedence-climbing evaluator proved correct against the denotation), not verified, '
          'and the lexing of the rendered text and EQU substitution are tied by correspondence: every run evaluates generated expressions (depth <= 6, sign runs, redundant parentheses, EQU-introduced signs, several core sizes) '
          'with gmars (hooked evaluateExpression and whole programs) against the extracted model and the independent denotation.'),
    design_ref='DESIGN.md 5 C07', note=NOTE_STD + ' go/types.Eval is modelled on the fragment of decimal literals, + - * / %, unary signs and parentheses; inputs outside it are excluded from the tie (model answers Unmodelled).',
@@ -135,12 +135,12 @@ CHECKS.update({
 
 CHECKS.update({
  'C03': dict(
-   text=('PARTIAL. Proved END TO END on the literal model (lexer, symbol scanner, FOR passes, parser, compiler) for programs of labelled instructions, EQU definitions (anywhere, used before or after their definition, nested to any depth: C03_programs_with_equ_partial) and ORG, and for programs of labelled instructions with ORG and the END line (C03_labelled_programs_partial), i.e. the full statement restricted to programs without FOR and ;assert and generalised to every layout: '
+   text=('PARTIAL. Proved END TO END on the literal model (lexer, symbol scanner, FOR passes, parser, compiler) for programs of labelled instructions, EQU definitions (anywhere, used before or after their definition, nested to any depth: C03_programs_with_equ_partial) and ORG, and for programs of labelled instructions with ORG and the END line (C03_labelled_programs_partial), i.e. the full statement restricted to programs without FOR and generalised to every layout; the EQU theorem also covers ;assert lines anywhere among the lines - comments `;assert<text>` whose text lexes to a condition, evaluated by the compiler with the definitions as written exactly as the reference reads them (C03EquCompile.r2_assertions, example C03AssertExample): '
          'any text whose lexemes, with any white space between them, form a document - comment lines, an ORG line, instruction lines with label sections in any spelling (names, colons, line ends), mnemonics in any letter case with or without modifier, operands with or without modes, one or two operands, remarks, blank lines, '
          'an END line with labels and with or without expression - that renders an abstract program having a meaning (spec/Meaning.v: labels are offsets from the referring instruction, END-line labels the address past the code, dialect defaults for omitted modes and modifiers, lone-operand rule, fields modulo the core size, ORG/END entry point) '
          'is assembled by compile_warrior to exactly that code, entry point and comment metadata, for both dialects and every valid configuration; a concrete program exercising all of this is checked by vm_compute to meet the hypotheses. '
          'Also proved separately: lexer on any sequence of well-placed lexemes; default-modifier tables equal the reference tables; one substitution pass is token-wise and replaces every EQU name by its text; mnemonics recognised under every letter-casing; entry point lemma. '
-         'EQU: the reference substitutes names pass by pass with the definitions as written and evaluates the token list; the compiler uses its table of resolved values - both arrive at the same token list (C03Equ) and both evaluators give it the same value (C07Inverse), definitions that refer to each other along a rank pass the cycle check. FOR: a text whose tokens unroll block by block (C08) to such a document is assembled to the meaning of the unrolled program (C03_programs_with_for_partial), and for a block without labels or counter over unlabelled instruction and comment lines, count >= 1 from any expression over the EQU symbols in front, that relation is constructed rather than assumed (C03_programs_with_plain_for_partial, with an example; C03_programs_with_counter_for_partial for `c FOR count` whose body uses the counter in its operands, with an example; C03_programs_with_blocks_partial for ANY NUMBER of such blocks one after another, by induction over the blocks, with an example of two blocks; C03_programs_with_blocks_reference_partial: the same with the counts given by the reference value of the count expression over the EQU definitions in front of each block, the agreement of the expander with it being proved, C08_block_count_partial), as it is for the comment idiom - a block with count <= 0 around any body (C03_programs_with_comment_block_partial, with an example). NOT proved: FOR blocks with block labels, labelled body lines or nesting and ;assert lines inside the end-to-end statement (kept as C03_full_statement; parts in C07, C08), EQU together with an END line. That statement is decided on every run by the two-stage correspondence: generated abstract programs rendered under several styles by the extracted renderer, assembled by gmars and by the extracted model, compared with the extracted meaning.'),
+         'EQU: the reference substitutes names pass by pass with the definitions as written and evaluates the token list; the compiler uses its table of resolved values - both arrive at the same token list (C03Equ) and both evaluators give it the same value (C07Inverse), definitions that refer to each other along a rank pass the cycle check. FOR: a text whose tokens unroll block by block (C08) to such a document is assembled to the meaning of the unrolled program (C03_programs_with_for_partial), and for a block without labels or counter over unlabelled instruction and comment lines, count >= 1 from any expression over the EQU symbols in front, that relation is constructed rather than assumed (C03_programs_with_plain_for_partial, with an example; C03_programs_with_counter_for_partial for `c FOR count` whose body uses the counter in its operands, with an example; C03_programs_with_blocks_partial for ANY NUMBER of such blocks one after another, by induction over the blocks, with an example of two blocks; C03_programs_with_blocks_reference_partial: the same with the counts given by the reference value of the count expression over the EQU definitions in front of each block, the agreement of the expander with it being proved, C08_block_count_partial), as it is for the comment idiom - a block with count <= 0 around any body (C03_programs_with_comment_block_partial, with an example). NOT proved: FOR blocks with block labels, labelled body lines or nesting inside the end-to-end statement (kept as C03_full_statement; parts in C08), EQU or ;assert together with an END line. That statement is decided on every run by the two-stage correspondence: generated abstract programs rendered under several styles by the extracted renderer, assembled by gmars and by the extracted model, compared with the extracted meaning.'),
    design_ref='DESIGN.md 0.2, 5 C03', note=NOTE_STD + ' EQU/FOR/;assert programs are covered by differential testing against the by-construction meaning; the end-to-end theorem covers labelled instructions with ORG/END in every layout.',
    technique='Coq end-to-end theorem for EQU/FOR-free programs (positioned-parser symbolic execution by induction over documents, refinement of the compile stage to the independent meaning function, lexer lemma for arbitrary spacing) + compile-stage lemmas + per-run two-stage differential correspondence against the independent meaning function'),
  'C08': dict(
